@@ -324,7 +324,19 @@ pub fn run(prop: &str, tier: &str, out: Option<&Path>) -> i32 {
             if prop == "C13" {
                 cl.push(classing_invalid());
             }
-            let cfgs = configs(&frames_std(), &cl, &BOTH);
+            let cfgs = if thorough {
+                configs(&frames_std(), &cl, &BOTH)
+            } else {
+                // quick: the two largest frame counts only with two classings
+                let fs = frames_std();
+                let (small, big) = fs.split_at(fs.len() - 2);
+                let mut c = configs(small, &cl, &BOTH);
+                c.extend(configs(big, &[ClassingSpec::simple(1), ClassingSpec::movable(1)], &BOTH));
+                if prop == "C13" {
+                    c.retain(|c| c.frames != HUGE_FRAMES - 1 && c.frames != TREE_FRAMES - 1);
+                }
+                c
+            };
             let depth = if thorough {
                 if small_geometry() { 5 } else { 4 }
             } else {
@@ -504,7 +516,11 @@ pub fn run(prop: &str, tier: &str, out: Option<&Path>) -> i32 {
                 ClassingSpec::movable(1),
                 ClassingSpec::zeroed([1, 1, 1], 1),
             ];
-            let frames = vec![2 * TREE_FRAMES, 2 * TREE_FRAMES + HUGE_FRAMES + 3, 3 * TREE_FRAMES];
+            let frames = if thorough {
+                vec![2 * TREE_FRAMES, 2 * TREE_FRAMES + HUGE_FRAMES + 3, 3 * TREE_FRAMES]
+            } else {
+                vec![2 * TREE_FRAMES, 2 * TREE_FRAMES + HUGE_FRAMES + 3]
+            };
             let cfgs = configs(&frames, &cl, &[InitMode::FreeAll]);
             let params = SeqParams {
                 prop: prop.to_string(),
@@ -603,6 +619,13 @@ pub fn run(prop: &str, tier: &str, out: Option<&Path>) -> i32 {
             };
             let mut f0 = frames.clone();
             f0.insert(0, 0);
+            let mut cfgs = cfgs;
+            let mut params = params;
+            if !thorough && small_geometry() {
+                // quick, small geometry: depth 4 only for allocators of at most 2 trees
+                cfgs.retain(|c| c.frames <= 2 * TREE_FRAMES);
+                params.max_secs = 6.0;
+            }
             run_seq_with(prop, tier, cfgs, params, seq_assume, out, |col| {
                 let (builds, calls) = crate::extras::c09_constructions(&f0, &cl, col);
                 json!({"construction_modes_enumerated": builds, "calls_after_construction": calls,
